@@ -193,8 +193,10 @@ def compare_call(lib, k, call, trace, outkv, serials, conv):
     recs = [t for t in trace.get(k, []) if t[0] == "RECV"]
     sends = [t for t in trace.get(k, []) if t[0] == "SEND"]
     label = "%s (%s)" % (var.get("label") or var["c_name"], g.get("fid"))
-    if len(recs) != 1:
-        v.append(("library-entered-%d-times" % len(recs), "%s: expected exactly one library call, trace has %r" % (label, [t[1] for t in recs])))
+    nwant = 3 if call.get("twice") else 1
+    if len(recs) != nwant:
+        v.append(("library-entered-%d-times%s" % (len(recs), ":of-3-written" if call.get("twice") else ""),
+                  "%s: the driver calls the function %d time(s) here, trace has %r" % (label, nwant, [t[1] for t in recs])))
         return v
     kind, fid, kv = recs[0]
     if fid != g["fid"]:
